@@ -1,9 +1,29 @@
 import Driver.Util
+import Mtv.Schema.C13Meth
 namespace Driver.C13
-open Mtv Driver
+open Mtv Mtv.Schema Mtv.TL Mtv.Gen Mtv.C13 Driver
 
-/-- operations of property C13; not built yet -/
+def names (ds : List Def) : String := showList (ds.map fun d => d.name.toString)
+
+/-- witnesses for every table obligation of C13: the definitions / methods / wrappers / registered
+types for which it fails (all lists empty ⇔ the obligations hold) -/
+def report : String :=
+  let badCrc := (schemaApi ++ schemaMt).filter fun d => !defOk d
+  let badApi := apiDefs.filter fun d => !defMatch TA registry d
+  let badMt := serviceDefs.filter fun d => !defMatch TM registry d
+  let badRows := (schemaApi.filter fun d => !typeRowOk TA d) ++ (schemaMt.filter fun d => !typeRowOk TM d)
+  let badReg := registry.filter fun c => !regRowOk c
+  let badMeth := (methods.filter isGenerated).filter fun m => !methodOk TA registry schemaApi m
+  let badWrap := wrappers.filter fun w => !(wrapperOk TA registry schemaApi w && wrapperNames.contains w.schemaName)
+  let extra := extraIds.filterMap fun id => (registry.find id).map fun c => c.name
+  let dup := !(strictlySorted (registry.map (·.id)) && strictlySorted (schemaApi.map (·.id)) && strictlySorted (schemaMt.map (·.id)))
+  s!"crc={names badCrc} api={names badApi} service={names badMt} rows={names badRows} " ++
+  s!"reg={showList (badReg.map (·.name))} methods={showList (badMeth.map (·.name))} " ++
+  s!"wrappers={showList (badWrap.map (·.name))} extra={showList extra} counts={tableCountsOk} dupids={dup} " ++
+  s!"ndefs={schemaApi.length + schemaMt.length} nreg={registry.length} nmethods={methods.length}"
+
 def handle : List String → String
+  | ["c13.report"] => report
   | _ => "bad-op"
 
 end Driver.C13
